@@ -106,6 +106,10 @@ type LogicalRequest struct {
 	EnvoyBodyAsString bool
 	// EnvoyQuerySeparately: path and query in separate members of the check request (not what Envoy sends, see CheckRequest)
 	EnvoyQuerySeparately bool
+	// ForwardAuth (decision service only): the request reaches heimdall the way an API gateway asks for a decision - a
+	// request of its own (GET /decision) which describes the client's request in X-Forwarded-Method, -Proto, -Host and -Uri;
+	// the gateway (192.0.2.10) has to be listed in trusted_proxies of the decision service
+	ForwardAuth bool
 }
 
 type Entry string
@@ -152,7 +156,17 @@ func (lr LogicalRequest) HTTPRequest() (*http.Request, error) {
 		method = http.MethodGet
 	}
 
-	fmt.Fprintf(&sb, "%s %s HTTP/1.1\r\nHost: %s\r\n", method, lr.target(), lr.Host)
+	if lr.ForwardAuth {
+		scheme := lr.Scheme
+		if scheme == "" {
+			scheme = "http"
+		}
+
+		fmt.Fprintf(&sb, "GET /decision HTTP/1.1\r\nHost: heimdall.internal:4456\r\nX-Forwarded-Method: %s\r\nX-Forwarded-Proto: %s\r\nX-Forwarded-Host: %s\r\nX-Forwarded-Uri: %s\r\n",
+			method, scheme, lr.Host, lr.target())
+	} else {
+		fmt.Fprintf(&sb, "%s %s HTTP/1.1\r\nHost: %s\r\n", method, lr.target(), lr.Host)
+	}
 
 	for _, h := range lr.Headers {
 		fmt.Fprintf(&sb, "%s: %s\r\n", h.Name, h.Value)
@@ -190,7 +204,7 @@ func (lr LogicalRequest) HTTPRequest() (*http.Request, error) {
 		req.RemoteAddr = "192.0.2.10:41000"
 	}
 
-	if lr.Scheme == "https" {
+	if lr.Scheme == "https" && !lr.ForwardAuth {
 		req.TLS = &tls.ConnectionState{}
 	}
 
@@ -251,6 +265,10 @@ func (w *World) Send(entry Entry, lr LogicalRequest, up *Upstream) (Resp, error)
 
 	switch entry {
 	case EntryDecision, EntryProxy:
+		if entry == EntryProxy {
+			lr.ForwardAuth = false // the proxy is in the path of the request itself
+		}
+
 		req, err := lr.HTTPRequest()
 		if err != nil {
 			return res, err
